@@ -19,7 +19,9 @@ CLAIMED = {
               'PARSER-REPS: the optimal parser rotates its copy of the four repeat distances exactly as the coder does, for '
               'rep index 0..3 and for a match (constant-propagating evaluation of both functions, loops over concrete '
               'ranges unrolled). FINDER-LOOKAHEAD: a match finder holds a position back until the look-ahead its insertion '
-              'routine compares is there (binary tree: nice_len; hash chains: the hash width).',
+              'routine compares is there (binary tree: nice_len; hash chains: the hash width). PENDING-RESET-ORDER: the pending '
+              'counter is cleared before the replay call and never stored after it. SLOT-TABLE-EXTENT: the distance-slot price '
+              'table has get_dist_slot(e) + k entries with e >= dict_size - 1, k >= 1 (monotonicity of get_dist_slot assumed).',
               'match finder/window invariants (matches only inside the retained window), look-ahead bookkeeping, the optimal '
               'parser\'s prices and node links, range-coder carry and flush length, 31-bit renormalisation, arithmetic offsets of symbols (len - 2, slot '
               'bases): all depend on run-time values.'),
@@ -63,7 +65,7 @@ CLAIMED = {
               'OWED-OUTPUT (BCJ2Reader returns Ok after an exhausted input only under uncompressed_size == 0 or with a non-zero '
               'count; path conditions), MAGIC-PREFIX (an LZIP member probe says "trailing data" only after comparing the bytes it '
               'got with the magic), FLUSH-FORWARD (a writer that forwards flush to its sink does so on every Ok path), '
-              'READ-ERR-LATCH (see C06; covers XZReader).',
+              'READ-ERR-LATCH (see C06; covers XZReader), ERR-STATE-ENTRY (see C09).',
               'that truncation is *detected* by the end-of-stream consistency checks (value dependent).'),
     'C06': _c('static: interval analysis with guard refinement across calls/fields; call-graph SCCs',
               'ALLOC-TAINT (every decoder-reachable allocation size bounded), INT-OVF (overflow asserts in loop-free scalar '
@@ -75,7 +77,10 @@ CLAIMED = {
               'again after an Err: LZMAReader, LZMA2Reader, LZIPReader, XZReader), WINDOW-ALIGN (window never empty), RANGE-ORDER '
               '(all 20 two-sided slice ranges on the decoding side are ordered by construction or by a guard), ERR-SLOT (see C05: '
               'a failing source can no longer feed the LZ decoder zeros without end), SCAN-PROGRESS (both backward scans of '
-              'LZIPReaderMT move their position down by >= 1 in every round).',
+              'LZIPReaderMT move their position down by >= 1 in every round), INDEX-GUARD (all 13 element accesses with an '
+              'input-derived index into an input-sized vector in the reader files are dominated by a comparison with that '
+              'vector\'s length, index not reassigned in between), OUTPUT-BUFFERED (no worker drains a decoder into a Vec: '
+              'reports the two MT reader workers as known findings).',
               'index bounds inside the LZ window and BCJ2 state machine, loop termination, checked BCJ address arithmetic on data '
               'bytes (inside loops).'),
     'C07': _c('static: dominance rule on impl Read::read + I/O count classification',
@@ -83,7 +88,7 @@ CLAIMED = {
               '(transforming writers never report a partial count); PENDING-PAIR (every absolute move of the LZ encoder read limit '
               're-processes the pending bytes on all paths) and LOOKAHEAD-TWIN (one look-ahead reserve: limit formula, its guard, '
               'the window-move trigger and the buffer-size formula agree); FINDER-LOOKAHEAD (see C01: what a flush in the middle '
-              'of the data may let into the match finder).',
+              'of the data may let into the match finder); PENDING-RESET-ORDER (see C01).',
               'numeric relations of the LZ window beyond the two structural rules. TAIL-FORWARD (a transforming writer never forwards '
               'the tail its transform did not process) reports the BCJWriter defect as a known finding.'),
     'C08': _c('static: ordering/guard rules on the four MT pipelines + control-byte value sets',
@@ -99,7 +104,8 @@ CLAIMED = {
               'SINK-ERR-STICKY (a failed sink write of a dequeued unit moves the writer to its error state), PANIC-WAKE (a worker '
               'that unwinds while holding a unit posts to the result channel through a drop guard), WRITE-LOOP-PROGRESS (a write-loop '
               'iteration that copies nothing still reaches the dispatch call; the room left in the unit is measured inside the loop), '
-              'SCAN-PROGRESS (see C06).',
+              'SCAN-PROGRESS (see C06), ERR-STATE-ENTRY (write, flush and finish of the MT writers test the error state before '
+              'any exit that can carry Ok).',
               'progress of back-pressure loops, value relations between sequence counters.'),
     'C10': _c('static: lock-set analysis, condvar predicate discipline, call-graph effects',
               'CV-LOCK, CV-NOTIFY (every predicate write is followed by a notify on all paths), LOCK-SCOPE, DROP-CLOSE, SPAWN-BOUND '
@@ -132,7 +138,8 @@ CLAIMED = {
               'NORM-NONNEG: scalar, AVX2 and SSE4.1 position-normalisation kernels all store max(p,o)-o (>= 0, 0 when p <= o). '
               'TWIN-SLICES: in every configuration the match-extension helper compares two slices of one common length whose '
               'logical part is limit - current_len. ASM-DISPATCH: the clamping assembly path of decode_direct_bits is only '
-              'entered when the bytes it can consume are left (a comparison involving the bit count), so it never reaches the point '
+              'entered when the bytes it can consume are left (a comparison involving the bit count whose bound, evaluated for every '
+              'count in 1..=32, covers the worst-case consumption 1 + ceil((count - 1) / 8)), so it never reaches the point '
               'where it differs from the portable loop. ALIGNED-LEN-USE: the rounded-up length of the over-aligned tables is only '
               'compared, never used as a value.',
               'instruction-level equivalence of the assembly and the word-at-a-time comparators with their portable twins, '
